@@ -553,7 +553,9 @@ register("C16",
          "non-trivial = each generated program / path with a vendor-like segment",
          [stream_part("C16", lambda tier: [("paths", "paths", ["-seed", seed(), "-n", 8000 if tier == "quick" else 100000])],
                       nontrivial=lambda case, im: "vendor" in " ".join(case.get("raw", []))),
-          _c16_part])
+          _c16_part,
+          # a package named by a list of files must be treated like the same package named by its directory (internal packages: D42)
+          lambda rep, tier: _c01_internal(rep, tier)])
 
 register("C12",
          "unit tier: real processStructProvider / processFieldsOf on random struct types (field names differing only in letter case, "
